@@ -251,6 +251,7 @@ pub fn judge_unit(doc: &Doc, legend: &[String], result: &Value, unit: Unit) -> R
     for p in &doc.lay.pieces {
         let must = match (p.lexeme.map(|i| &doc.lexemes[i].class), &p.trivia) {
             (Some(Class::Ident), _) | (Some(Class::Address), _) => true,
+            (Some(Class::Keyword), _) | (Some(Class::TypeKw), _) | (Some(Class::WordOp), _) | (Some(Class::Op), _) => true,
             (None, Some(TriviaKind::Comment)) => true,
             _ => false,
         };
